@@ -23,8 +23,9 @@ sys.path.insert(0, os.path.join(C.ROOT, "tools"))
 import translate_rng  # noqa: E402
 from cxx2lean import Refuse  # noqa: E402
 
-# the machine is shared: at most VERIF_JOBS (default 4) compile jobs / concurrently running processes
-C.NPROC = max(1, min(C.NPROC, int(os.environ.get("VERIF_JOBS", "4"))))
+# the machine is shared: at most VERIF_JOBS (default 4) compile jobs / concurrently running processes while this
+# check runs (vlib.common.NPROC is restored afterwards)
+JOBS = max(1, min(C.NPROC, int(os.environ.get("VERIF_JOBS", "4"))))
 
 U64 = (1 << 64) - 1
 
@@ -1019,6 +1020,15 @@ def replay_whole_run(chk, r):
 
 
 def run(chk, replay=None):
+    saved = C.NPROC
+    C.NPROC = JOBS
+    try:
+        return run_(chk, replay)
+    finally:
+        C.NPROC = saved
+
+
+def run_(chk, replay=None):
     rng = C.SplitMix(chk.seed)
     broken = []
     scan_pool = cf.ThreadPoolExecutor(1)
